@@ -107,7 +107,7 @@ def member_fault(body, f):
     if kind == "payload_noise":
         ln = int.from_bytes(body[1:4], "little")
         return body[:4] + (noise * (ln // 64 + 1))[:ln] + body[4 + ln:]
-    if kind in ("varint_overlong", "varint_truncated", "archiveinfo_noise", "message_length_beyond", "no_segments", "bad_type"):
+    if kind in ("varint_overlong", "varint_truncated", "archiveinfo_noise", "message_length_beyond", "no_segments", "bad_type") or kind in HEADER_FAULTS:
         try:
             S, _, _ = iwa.stream_of(body, allow_stored=False)
             segs = iwa.parse_segments(S)
@@ -135,6 +135,23 @@ def member_fault(body, f):
             mi = b"\x08" + iwa.write_varint(999_999) + b"\x18" + iwa.write_varint(len(body0))
             header += iwa.write_varint(len(mi)) + mi
             S2 = S + iwa.write_varint(len(header)) + header + body0
+        elif kind in HEADER_FAULTS:
+            # a well-framed segment whose header (ArchiveInfo) is valid protobuf but not a usable header
+            ident = b"\x08" + iwa.write_varint(987_000 + f.get("salt", 0))
+            mi_ok = b"\x08\x01\x18\x02"
+            header, payload = {
+                "header_no_message_infos": (ident, b""),
+                "header_empty": (b"", b""),
+                "header_no_identifier": (b"\x12" + iwa.write_varint(len(mi_ok)) + mi_ok, b"\x08\x01"),
+                "header_message_info_empty": (ident + b"\x12\x00", b""),
+                "header_message_info_no_type": (ident + b"\x12\x02\x18\x02", b"\x08\x01"),
+                "header_identifier_as_bytes": (b"\x0a\x01\x05" + b"\x12" + iwa.write_varint(len(mi_ok)) + mi_ok, b"\x08\x01"),
+                "header_unknown_fields_only": (b"\xf8\x07\x01", b""),
+                "header_cut_in_field": ((ident + b"\x12" + iwa.write_varint(len(mi_ok)) + mi_ok)[:-1], b""),
+            }[kind]
+            bad = iwa.write_varint(len(header)) + header + payload
+            place = f.get("place", "append")
+            S2 = {"append": S + bad, "first": bad + S, "only": bad}[place]
         else:
             S2 = b""
         import snappy
@@ -332,7 +349,9 @@ def load_base(case):
 # ------------------------------------------------------------------------------------------
 # generators
 
-MEMBER_FAULTS = ["empty", "short", "truncate", "truncate_chunk_boundary", "marker", "length", "payload_noise", "varint_overlong", "varint_truncated",
+HEADER_FAULTS = ["header_no_message_infos", "header_empty", "header_no_identifier", "header_message_info_empty", "header_message_info_no_type",
+                 "header_identifier_as_bytes", "header_unknown_fields_only", "header_cut_in_field"]
+MEMBER_FAULTS = HEADER_FAULTS + ["empty", "short", "truncate", "truncate_chunk_boundary", "marker", "length", "payload_noise", "varint_overlong", "varint_truncated",
                  "archiveinfo_noise", "message_length_beyond", "bad_type", "no_segments", "garble"]
 
 
@@ -349,6 +368,8 @@ def member_fault_strategy(names):
             base.update({"value": st.integers(1, 255)})
         elif mkind == "length":
             base.update({"how": st.sampled_from(["plus", "minus", "huge", "zero"])})
+        elif mkind in HEADER_FAULTS:
+            base.update({"place": st.sampled_from(["append", "first", "only"])})
         return st.fixed_dictionaries(base)
 
     return st.sampled_from(MEMBER_FAULTS).flatmap(one)
